@@ -11,6 +11,8 @@ pub enum Entry {
 pub enum Hint {
     Exact,
     Inexact,
+    /// an honest inexact hint whose upper bound is attained: `(0, Some(elements left))`
+    Upper,
     Unbounded,
     /// claims `(k - produced, Some(k - produced))` whatever the script holds (a dishonest exact hint)
     Fixed(usize),
@@ -212,6 +214,7 @@ fn parse_src(toks: &[&str], ln: usize) -> Result<(Src, usize), String> {
         match need("hint")? {
             "exact" => Ok(Hint::Exact),
             "inexact" => Ok(Hint::Inexact),
+            "upper" => Ok(Hint::Upper),
             "unbounded" => Ok(Hint::Unbounded),
             h if h.starts_with("fixed") => h[5..]
                 .parse::<usize>()
